@@ -145,6 +145,13 @@ func (cls *CachedLocations) Open(ctx *Context, sys *System, name string, check b
 			Expires: expires,
 		}
 
+		// Lock the new entry before anybody else can find it.
+		// Otherwise a concurrent Open could see the entry
+		// before we start loading, find no Location in it and
+		// load the location a second time (and then requests
+		// would be served by two different instances).
+		cl.Lock()
+
 		if ttl != Never || ctl.CachePending {
 			cls.locs[name] = cl
 		}
@@ -155,7 +162,7 @@ func (cls *CachedLocations) Open(ctx *Context, sys *System, name string, check b
 		// can take a long time.  We'd like to be able to open
 		// locations concurrently.
 		cls.Unlock()
-		return cl.Get(ctx, sys, name, check)
+		return cl.get(ctx, sys, name, check, true)
 	}
 
 	cls.Unlock()
@@ -225,8 +232,16 @@ func (sys *System) OpenLocation(ctx *Context, name string, checkExists bool) (*L
 
 // Get returns the location after opening it once.
 func (cl *CachedLocation) Get(ctx *Context, sys *System, name string, checkExists bool) (*Location, error) {
+	return cl.get(ctx, sys, name, checkExists, false)
+}
+
+// get does the work for Get.  If 'locked', the caller already holds
+// the CachedLocation's lock (which this method releases).
+func (cl *CachedLocation) get(ctx *Context, sys *System, name string, checkExists bool, locked bool) (*Location, error) {
 	Log(INFO, ctx, "CachedLocation.Get", "name", name, "checking", checkExists)
-	cl.Lock()
+	if !locked {
+		cl.Lock()
+	}
 	loc := cl.Location
 	var err error
 	if loc == nil {
